@@ -87,6 +87,7 @@ pub fn gen(rng: &mut Rng, kind: &str, size: &str, profile: &str) -> Scenario {
             return gen_stale_n(rng, kind, n);
         }
         "frontchurn" => return gen_frontchurn(rng, kind, size),
+        "burst" => return gen_burst(rng, kind),
         "zerocap" => {
             // an adapter with limit 0 never pulls anything (C09 starts at n = 1); it must at least stay silent (C14)
             let mut sc = gen_adapter(rng, kind, size);
@@ -144,7 +145,7 @@ pub fn gen(rng: &mut Rng, kind: &str, size: &str, profile: &str) -> Scenario {
                     let st = sc.scripts.get_mut(&c).unwrap();
                     let pos = rng.below(st.len() as u64 + 1) as usize;
                     st.insert(pos, Step { acts: vec![], resp: "!".into() });
-                } else if sc.ctor != "plain" {
+                } else if !sc.ctor.starts_with("plain") {
                     sc.drop_panic.push(c);
                 }
             }
@@ -209,7 +210,7 @@ fn gen_coll(rng: &mut Rng, kind: &str, size: &str) -> Scenario {
     if kind == "mb" {
         sc.ctor = "from_iter".into();
     }
-    if (!bounded || kind == "fub") && sc.ctor == "from_iter" && rng.pct(50) {
+    if sc.ctor == "from_iter" && rng.pct(50) {
         sc.ctor = "from_iter_lazy".into();
     }
     if !bounded && sc.ctor == "with_capacity" && !real {
@@ -330,6 +331,9 @@ fn gen_join(rng: &mut Rng, kind: &str, size: &str) -> Scenario {
     if n % 4 == 3 {
         // children without drop glue (the join cannot be observed dropping them; see children.rs)
         sc.ctor = "plain".into();
+    } else if n % 4 == 1 {
+        // outputs without drop glue
+        sc.ctor = "plainout".into();
     }
     for c in 1..=n {
         sc.init.push(c);
@@ -478,6 +482,50 @@ fn gen_frontchurn(rng: &mut Rng, kind: &str, size: &str) -> Scenario {
         }
     }
     sc.tail = tail(rng);
+    sc
+}
+
+/// joins and bounded merges: populations around the group size (32) and the per-poll budget (61) of which a whole batch
+/// finishes inside one poll call (the joins collect, the merge sources end) - optionally after a few finished earlier -
+/// then the run is cut (drop), polled on, or drained
+fn gen_burst(rng: &mut Rng, kind: &str) -> Scenario {
+    let mut sc = Scenario { kind: kind.into(), ctor: "from_iter".into(), ..Default::default() };
+    let stream = is_stream_kind(kind);
+    let batch: u32 = rng.pick(&[31u32, 32, 33, 60, 61, 62, 63, 122, 123]);
+    let early: u32 = if rng.pct(50) { 0 } else { 1 + rng.below(12) as u32 };
+    let late: u32 = if rng.pct(60) { 0 } else { 1 + rng.below(3) as u32 };
+    let n = early + batch + late;
+    sc.cap = n as usize;
+    let done = if stream { "E" } else { "R" };
+    for c in 1..=n {
+        sc.init.push(c);
+        let mut st = vec![];
+        if c > early {
+            // the batch and the late ones are pending at first; the batch is completed by the environment in one go
+            st.push(Step { acts: vec![], resp: "P".into() });
+        }
+        if c <= early {
+            st.push(Step { acts: vec![], resp: done.into() });
+        }
+        sc.scripts.insert(c, st);
+        if stream {
+            sc.stream_left.insert(c, 0);
+        }
+    }
+    sc.ops.push(Op::Poll { w: 1 });
+    for c in early + 1..=early + batch {
+        sc.ops.push(Op::Complete { c });
+    }
+    sc.ops.push(Op::Poll { w: 1 });
+    if rng.pct(50) {
+        sc.ops.push(Op::Poll { w: 1 });
+    }
+    sc.tail = match rng.below(3) {
+        0 => "drop",
+        1 => "drain",
+        _ => "quiet",
+    }
+    .into();
     sc
 }
 
